@@ -53,6 +53,7 @@ type Exec struct {
 	guardHits     map[string]int
 	GhostSorts    map[string]string
 	shiftFacts    [][3]Term
+	epochBound    map[string]int // epoch symbol -> allocation counter when that havoc happened
 	afterPats     []string
 	sumFuns       map[string]map[string]bool // element sort -> sum functions declared by the spec builtins sum / sumfield
 	specConsts    map[string]Val
@@ -361,7 +362,10 @@ func heapArrIn(x *Exec, h map[string]Term, name, sort string) Term {
 	if !x.D.HasFun(cname) {
 		x.D.DeclareFun(cname, nil, sort)
 		if suffix == "!init" {
-			x.initHeapFreshness(cname, sort)
+			x.initHeapFreshness(cname, sort, 0)
+		} else if b, ok := x.epochBound[suffix[1:]]; ok {
+			// after a havoc: whatever the forgotten region refers to existed when it was forgotten
+			x.initHeapFreshness(cname, sort, b)
 		}
 	}
 	return Term{cname, sort}
@@ -369,12 +373,19 @@ func heapArrIn(x *Exec, h map[string]Term, name, sort string) Term {
 
 // initHeapFreshness: every reference stored anywhere in the entry heap is "old" (rid <= 0), so it
 // can never alias an object allocated during the execution (rid > 0).
-func (x *Exec) initHeapFreshness(cname, sort string) {
+func (x *Exec) initHeapFreshness(cname, sort string, bound int) {
 	k, v := splitArraySort(sort)
 	if k != SRef {
 		return
 	}
 	old := func(t string) string { return "(<= (rid " + t + ") 0)" }
+	if bound > 0 {
+		// an epoch array: references in it are objects that existed at the havoc (allocation ids up
+		// to the bound) or came from outside (>= 1000000); later allocations get larger ids
+		old = func(t string) string {
+			return fmt.Sprintf("(or (<= (rid %[1]s) %[2]d) (>= (rid %[1]s) 1000000))", t, bound)
+		}
+	}
 	switch {
 	case v == SRef:
 		x.D.Axiom(fmt.Sprintf("(forall ((r Ref)) (! %s :pattern ((select %s r))))", old("(select "+cname+" r)"), cname))
@@ -395,7 +406,16 @@ func (x *Exec) fieldArrName(si *structInfo, i int) (string, string) {
 	return fmt.Sprintf("H.%s.%d", si.sort, i), ArraySort(SRef, si.fields[i])
 }
 
-func cellArrName(sort string) (string, string) { return "C." + sort, ArraySort(SRef, sort) }
+// cellArrName: the heap array holding cells of the given sort. A cell holding a Go array ([N]T)
+// lives in the element heap of T under the cell's own reference, indexed from 0 -- the same place a
+// slice over it reads and writes -- so `a[:]`, copy(a[:], …) and a[i] alias as they do in Go.
+func cellArrName(sort string) (string, string) {
+	if strings.HasPrefix(sort, "(Array Int ") {
+		_, v := splitArraySort(sort)
+		return elemArrName(v)
+	}
+	return "C." + sort, ArraySort(SRef, sort)
+}
 func elemArrName(sort string) (string, string) {
 	return "E." + sort, ArraySort(SRef, ArraySort(SInt, sort))
 }
@@ -1107,8 +1127,12 @@ func (x *Exec) havocLoop(st *State, fr *Frame, ld *loopDesc) {
 			x.setHeap(st, km.name, Store(arr, km.ref, km.row))
 		}
 	}()
+	if x.epochBound == nil {
+		x.epochBound = map[string]int{}
+	}
 	if touched["*"] {
 		ep := x.D.Fresh("epoch", SInt)
+		x.epochBound[ep.S] = x.nref
 		for n := range st.heap {
 			if strings.HasPrefix(n, "!") {
 				continue
@@ -1122,7 +1146,9 @@ func (x *Exec) havocLoop(st *State, fr *Frame, ld *loopDesc) {
 				continue
 			}
 			delete(st.heap, n)
-			st.heap["!ep:"+n] = x.D.Fresh("epoch", SInt)
+			ep := x.D.Fresh("epoch", SInt)
+			x.epochBound[ep.S] = x.nref
+			st.heap["!ep:"+n] = ep
 		}
 		if !touched["MD.*"] {
 			for _, mv := range updatedMaps {
